@@ -294,6 +294,8 @@ def np_zeros(ev, state, node):
         n = select(shape, ('fld', 0)).term
     elif shape.ty[0] == 'tuple' and len(shape.ty[1]) == 2:
         ty = T.TArr2(ety)
+        if shape.ty[1][0] != T.INT or shape.ty[1][1] != T.INT:
+            raise Unsupported("np.zeros shape with a non-integer (abstracted) extent")
         n0, n1 = select(shape, ('fld', 0)).term, select(shape, ('fld', 1)).term
         ev.ctx.oblige(state, z3.And(n0 >= 0, n1 >= 0), 'ValueError', node, 'non-negative shape')
         return SymVal(ty, T.ctor(ty)(n0, n1, z3.K(z3.IntSort(), z3.K(z3.IntSort(), fv))
